@@ -295,11 +295,90 @@ impl<'a> SVCB<'a> {
             }
 """, where='before')
 
-    for t, f, ext in [
-                      ('IPSECKEY', 'ipseckey', ('write_to', 'len')), ('NSAP', 'nsap', ('write_to', 'len'))]:
-        rel = 'dns/rdata/%s.rs' % f
-        wrap_type(c, rel, t, WEAK, external_trait_fns=('write_compressed_to',) + ext)
+    # ---- IPSECKEY (RFC 4025 2.1): precedence, gateway type, algorithm, gateway (none / IPv4 / IPv6 / uncompressed name), public key
+    rel = 'dns/rdata/ipseckey.rs'
+    c.wrap(rel, "pub enum Gateway<'a> {")
+    c.append(rel, """verus!{
+pub open spec fn gw_type(g: &Gateway) -> u8 { match g { Gateway::None => 0, Gateway::IPv4(_) => 1, Gateway::IPv6(_) => 2, Gateway::Domain(_) => 3 } }
+pub open spec fn gw_enc(g: &Gateway) -> Seq<u8> {
+    match g { Gateway::None => Seq::empty(), Gateway::IPv4(a) => ipv4_octets(*a), Gateway::IPv6(a) => ipv6_octets(*a), Gateway::Domain(n) => name_enc(n.lv()) }
+}
+}
+""")
+    IPS_WF = impl_header(c, rel, 'IPSECKEY')
+    wrap_type(c, rel, 'IPSECKEY', """    open spec fn wf_ok(&self) -> bool {
+        &&& self.public_key@.len() <= 65535
+        &&& (match self.gateway { Gateway::Domain(n) => name_ok(n.lv()), Gateway::IPv4(a) => ipv4_octets(a).len() == 4,
+                                  Gateway::IPv6(a) => ipv6_octets(a).len() == 16, Gateway::None => true })
+    }
+    open spec fn wf_enc(&self) -> Seq<u8> {
+        seq![self.precedence, gw_type(&self.gateway), self.algorithm] + gw_enc(&self.gateway) + self.public_key@
+    }
+    open spec fn wf_dec(data: Seq<u8>, p: int, v: &Self, p2: int) -> bool {
+        &&& p + 3 <= data.len()
+        &&& v.precedence == data[p] && v.algorithm == data[p + 2]
+        &&& gw_type(&v.gateway) == data[p + 1]     // unknown gateway type => rejected
+        &&& ({
+            let q = p + 3;
+            match v.gateway {
+                Gateway::None => v.public_key@ == data.subrange(q, data.len() as int),
+                Gateway::IPv4(a) => q + 4 <= data.len() && ipv4_octets(a) == data.subrange(q, q + 4) && v.public_key@ == data.subrange(q + 4, data.len() as int),
+                Gateway::IPv6(a) => q + 16 <= data.len() && ipv6_octets(a) == data.subrange(q, q + 16) && v.public_key@ == data.subrange(q + 16, data.len() as int),
+                Gateway::Domain(n) => dec_labels(data, q, 0) == Some(n.lv()) && v.public_key@ == data.subrange(q + inplace_len(data, q), data.len() as int),
+            }
+        })
+        &&& p2 == data.len()
+    }
+""", external_trait_fns=('write_compressed_to',))
+    c.ghost(rel, IPS_WF, 'parse', "*position += 4;", """
+                proof { assert(seq![data@[*position as int], data@[*position + 1], data@[*position + 2], data@[*position + 3]] =~= data@.subrange(*position as int, *position + 4)); }
+""", where='before')
+
+    # ---- NSAP (RFC 1706, 20-octet GOSIP form): afi(1) idi(2) dfi(1) aa(3) rsvd(2) rd(2) area(2) id(6) sel(1)
+    rel = 'dns/rdata/nsap.rs'
+    NSAP_WF = impl_header(c, rel, 'NSAP')
+    wrap_type(c, rel, 'NSAP', """    open spec fn wf_ok(&self) -> bool { self.aa < 0x100_0000 && self.id < 0x1_0000_0000_0000 }
+    open spec fn wf_enc(&self) -> Seq<u8> {
+        seq![self.afi] + enc_be(self.idi as nat, 2) + seq![self.dfi] + enc_be(self.aa as nat, 3) + enc_be(self.rsvd as nat, 2)
+        + enc_be(self.rd as nat, 2) + enc_be(self.area as nat, 2) + enc_be(self.id as nat, 6) + seq![self.sel]
+    }
+    open spec fn wf_dec(data: Seq<u8>, p: int, v: &Self, p2: int) -> bool {
+        &&& p + 20 <= data.len() && p2 == p + 20
+        &&& v.afi == data[p] && v.dfi == data[p + 3] && v.sel == data[p + 19]
+        &&& v.idi as nat == be_nat(data.subrange(p + 1, p + 3))
+        &&& v.aa as nat == be_nat(data.subrange(p + 4, p + 7))
+        &&& v.rsvd as nat == be_nat(data.subrange(p + 7, p + 9))
+        &&& v.rd as nat == be_nat(data.subrange(p + 9, p + 11))
+        &&& v.area as nat == be_nat(data.subrange(p + 11, p + 13))
+        &&& v.id as nat == be_nat(data.subrange(p + 13, p + 19))
+    }
+""", external_trait_fns=())
+    c.ghost(rel, NSAP_WF, 'parse', "let data = &data[*position..*position + 20];", "        let ghost d0 = data@;\n        let ghost p0 = *position as int;", where='before')
+    c.ghost(rel, NSAP_WF, 'parse', "Ok(Self {", """
+        proof {
+            assert(data@ == d0.subrange(p0, p0 + 20));
+            assert(seq![data@[1], data@[2]] =~= d0.subrange(p0 + 1, p0 + 3));
+            assert(seq![0u8, data@[4], data@[5], data@[6]] =~= seq![0u8] + d0.subrange(p0 + 4, p0 + 7));
+            lemma_be_nat_prepend_zero(d0.subrange(p0 + 4, p0 + 7));
+            assert(seq![data@[7], data@[8]] =~= d0.subrange(p0 + 7, p0 + 9));
+            assert(seq![data@[9], data@[10]] =~= d0.subrange(p0 + 9, p0 + 11));
+            assert(seq![data@[11], data@[12]] =~= d0.subrange(p0 + 11, p0 + 13));
+            let t = d0.subrange(p0 + 13, p0 + 19);
+            assert(seq![0u8, 0u8, data@[13], data@[14], data@[15], data@[16], data@[17], data@[18]] =~= seq![0u8] + (seq![0u8] + t));
+            lemma_be_nat_prepend_zero(t);
+            lemma_be_nat_prepend_zero(seq![0u8] + t);
+        }
+""", where='before')
+    c.contract(rel, NSAP_WF, 'write_to', "", pre_body="""
+        proof {
+            lemma_pow256_vals();
+            lemma_enc_be_leading_zero(self.aa as nat, 3);
+            assert(enc_be(self.aa as nat, 4).subrange(1, 4) =~= enc_be(self.aa as nat, 3));
+            lemma_enc_be_leading_zero(self.id as nat, 6);
+            lemma_enc_be_leading_zero(self.id as nat, 7);
+            assert(enc_be(self.id as nat, 8).subrange(2, 8) =~= enc_be(self.id as nat, 6));
+        }
+""")
     c.wrap('dns/rdata/opt.rs', "pub mod masks {")
     c.wrap('dns/rdata/opt.rs', "pub struct OPTCode<'a> {")
     c.wrap('dns/rdata/nsec.rs', "pub struct TypeBitMap<'a> {")
-    c.wrap('dns/rdata/ipseckey.rs', "pub enum Gateway<'a> {")
